@@ -5,7 +5,7 @@ rows = []
 for m in sorted(glob.glob("/verif/seeded/*/meta.json")):
     d = json.load(open(m))
     name = os.path.basename(os.path.dirname(m))
-    rows.append((name, d["property"], ", ".join(d["caught_by"]) or "NOT CAUGHT", d["needs_to_manifest"]))
+    rows.append((name, d["property"], ", ".join(d["caught_by"]) or "NOT CAUGHT", d["needs_to_manifest"] + ((" [" + d["status"] + "]") if d.get("status") else "")))
 out = ["# Seeded property-breaking changes", "",
        "Each directory holds `patch.diff` (apply with `git -C /repo apply`), `demo.py` (exit 1 with the change, 0 without), `notes.md` by the author",
        "and `meta.json`. All were written by independent sub-agents that saw only the property text and a scratch worktree, and confirmed here with",
